@@ -1708,6 +1708,7 @@ func (h *fsHandler) compressAndOpenFSFile(filePath, fileEncoding string) (*fsFil
 
 	if compressedFilePath != filePath {
 		if err := os.MkdirAll(filepath.Dir(compressedFilePath), 0o750); err != nil {
+			_ = f.Close()
 			return nil, err
 		}
 	}
@@ -1950,6 +1951,7 @@ func (h *fsHandler) newFSFile(f fs.File, fileInfo fs.FileInfo, compressed bool, 
 	if contentType == "" {
 		data, err := readFileHeader(f, compressed, fileEncoding)
 		if err != nil {
+			_ = f.Close()
 			return nil, fmt.Errorf("cannot read header of the file %q: %w", fileInfo.Name(), err)
 		}
 		contentType = http.DetectContentType(data)
